@@ -255,6 +255,11 @@ func (w *World) nextTS(c *Client) (int64, int64, error) {
 	if c.crashed.Load() {
 		return 0, 0, ErrDropped
 	}
+	if c.tsoDown.Load() {
+		// PD does not answer this client (`tsofail <client>`: no timestamp is handed out)
+		w.emitLocked("tsofail " + c.name)
+		return 0, 0, errors.New("verif: pd does not answer")
+	}
 	w.logical++
 	if w.logical >= 1<<18 {
 		w.physical++
@@ -315,6 +320,7 @@ type Client struct {
 	crashed atomic.Bool
 	inCall  atomic.Int32
 	running atomic.Bool
+	tsoDown atomic.Bool // every timestamp request of this client fails while set
 	calls   int
 	rpcs    atomic.Int64 // number of RPCs of this client released by the scheduler
 
@@ -608,3 +614,6 @@ func (w *World) AuditHeld(c *Client, keys [][]byte) {
 		w.emitLocked(fmt.Sprintf("audit held %d %s", c.txn.startTS, HexList(keys)))
 	}
 }
+
+// SetTSODown makes every timestamp request of the client fail (true) / work again (false): a PD outage as seen by one client.
+func (c *Client) SetTSODown(down bool) { c.tsoDown.Store(down) }
